@@ -42,10 +42,17 @@ impl_h!(g::bare_s::s_server::S);
 impl_h!(g::a_b_s::s_server::S);
 impl_h!(g::a_lower::s_server::s);
 
-pub fn build_routes(reg: &[String], log: &Rec, via_builder: bool) -> tonic::service::Routes {
+/// An interceptor that hands back a freshly built request (metadata copied, extensions not): legal, and it must not change
+/// which method a path names.
+fn rebuild(r: tonic::Request<()>) -> Result<tonic::Request<()>, tonic::Status> { let mut n = tonic::Request::new(()); *n.metadata_mut() = r.metadata().clone(); Ok(n) }
+pub fn build_routes(reg: &[String], log: &Rec, via_builder: bool) -> tonic::service::Routes { build_routes_opt(reg, log, via_builder, false) }
+pub fn build_routes_opt(reg: &[String], log: &Rec, via_builder: bool, intercepted: bool) -> tonic::service::Routes {
     let mut b = tonic::service::Routes::builder();
     let mut r = tonic::service::Routes::default();
-    macro_rules! add { ($svc:expr) => {{ if via_builder { b.add_service($svc); } else { r = r.add_service($svc); } }}; }
+    macro_rules! add { ($svc:expr) => {{
+        if intercepted { let s = tonic::service::interceptor::InterceptedService::new($svc, rebuild as fn(tonic::Request<()>) -> Result<tonic::Request<()>, tonic::Status>);
+                         if via_builder { b.add_service(s); } else { r = r.add_service(s); } }
+        else if via_builder { b.add_service($svc); } else { r = r.add_service($svc); } }}; }
     for name in reg {
         match name.as_str() {
             "a.S" => add!(g::a_s::s_server::SServer::new(H { svc: "a.S", log: log.clone() })),
@@ -123,15 +130,17 @@ fn run_via_server(stim: &Value, rec: &Rec) {
 pub fn run(stim: &Value, rec: &Rec) {
     if stim["via"].as_str() == Some("server") { return run_via_server(stim, rec); }
     let reg: Vec<String> = stim["reg"].as_array().cloned().unwrap_or_default().iter().map(|v| v.as_str().unwrap_or("").to_string()).collect();
-    let routes = build_routes(&reg, rec, stim["via"].as_str() == Some("builder"));
     let path = json_bytes(&stim["path"]);
+    // a fifth of the tables register their services behind an interceptor that rebuilds the request
+    let routes = build_routes_opt(&reg, rec, stim["via"].as_str() == Some("builder"), stim["intercepted"].as_bool().unwrap_or(path.len() % 5 == 2));
     let uri = match http::Uri::try_from(&path[..]) { Ok(u) => u, Err(_) => { rec.ev(json!({"e":"sent","uri_ok":false})); return; } };
     rec.ev(json!({"e":"sent","uri_ok":true,"path_seen":str_json(uri.path())}));
     let req = http::Request::builder().method("POST").version(http::Version::HTTP_2).uri(uri)
         .header("content-type", "application/grpc").header("te", "trailers")
         .body(Body::new(http_body_util::Full::new(Bytes::from_static(&[0, 0, 0, 0, 1, 7])))).unwrap();
     block_on(async {
-        let mut svc = routes.prepare();
+        // prepare() is documented as an optional optimisation: two thirds of the tables are used without it
+        let mut svc = if stim["prepare"].as_bool().unwrap_or(path.len() % 3 == 0) { routes.prepare() } else { routes };
         let resp = ServiceExt::<http::Request<Body>>::ready(&mut svc).await.unwrap().call(req).await.unwrap();
         let (p, body) = resp.into_parts();
         let mut data = vec![]; let mut trailers = json!([]);
